@@ -1,4 +1,4 @@
-import Hive.Proofs.BatchWriterInv
+import Hive.Proofs.BatchWriterLive
 import Hive.Gen.C08_Skel
 /-!
 # C08 — BatchedWriter never loses or half-writes an enqueued object
@@ -126,6 +126,18 @@ producer threads between their `running` check and their counter increment. -/
 theorem C08_window_counter {q b : Nat} {c0 c : Cfg St Thread} (h0 : Init q b c0) (hr : Reach sys c0 c) :
     c.1.win = c.2.countP inWin :=
   (inv_reach h0 hr).cnt.win
+
+/-- **No call blocks for ever** (partial).  Hypothesis `raced = false`.  Proved: no reachable configuration
+is a deadlock — whenever some Enqueue / Stop / Flush call is unfinished, some thread can move; in particular
+a producer blocked on the full queue implies the writer goroutine is alive, and Stop blocked in `Wait` implies
+the writer is alive or about to be started.  Missing for the full statement: (i) after a window race a
+producer does block for ever (`C08_no_block_forever_witness`); (ii) the step from "no deadlock" to "every
+blocked call eventually moves under fair scheduling" (a variant argument over queue length, batch progress and
+remaining scripts) is not formalised. -/
+theorem C08_no_block_forever_partial {q b : Nat} {c0 c : Cfg St Thread} (h0 : Init q b c0)
+    (hw : Thread.writer ∈ c0.2) (hr : Reach sys c0 c) (hrace : c.1.raced = false) :
+    ¬ Deadlock sys (fun t => t.finished = true) c :=
+  no_deadlock (inv_reach h0 hr) (writer_mem_reach hw hr) hrace
 
 /-! ### Hypotheses are satisfiable: a complete race-free run -/
 
